@@ -9,8 +9,34 @@ ASSEMBLY_OVERLAY = {
     "internal/zzverif/assembly/listeners.go": "assembly/listeners.go",
 }
 
+def _extra_coverage():
+    """per-stream case counts and one generated sample of the units and e2e streams (read from this run's observations)"""
+    import json, os
+    import vf
+    out = {"evaluations_per_stream": {}, "more_samples": []}
+    for name in ("proxy", "units", "e2e"):
+        path = os.path.join(vf.OUT, "C15", "obs_%s.jsonl" % name)
+        if not os.path.exists(path):
+            continue
+        n, sample = 0, None
+        with open(path) as f:
+            for line in f:
+                if not line.strip():
+                    continue
+                n += 1
+                if sample is None and name != "proxy":
+                    o = json.loads(line)
+                    if o.get("stream") != "corpus":
+                        sample = {"stream": name, "in": o["in"], "obs": o["obs"]}
+        out["evaluations_per_stream"][name] = n
+        if sample:
+            out["more_samples"].append(sample)
+    return out
+
+
 P = {
     "id": "C15",
+    "extra_coverage": _extra_coverage,
     "claimed": True,
     "coq_targets": ["C15/Spec.vo", "C15/QueryLemmas.vo", "C15/Proofs.vo", "C15/MainProof.vo", "Properties/C15.vo", "Run/Eval_C15.vo"],
     "theorems_module": "Properties.C15",
@@ -20,10 +46,10 @@ P = {
         "C15_query_only_removed", "C15_query_only_removed_pinned", "C15_query_kept_bytes", "C15_parse_encode_roundtrip",
         "C15_headers_name_by_name", "C15_pipeline_header_wins", "C15_pipeline_header_on_the_wire", "C15_pipeline_host_wins",
         "C15_no_forwarded_passthrough", "C15_forwarded_extended_by_peer", "C15_header_names_any_casing",
-        "C15_spec_holds", "C15_sequence_spec_holds",
-        "C15_F1_pinned_refuted", "C15_F4_pinned_refuted", "C15_F2_refuted", "C15_F3_refuted", "C15_F5_refuted",
-        "C15_F6_refuted", "C15_F7_refuted", "C15_F8_observed_refuted", "C15_F9_refuted",
-        "C15_nonvacuous",
+        "C15_spec_holds", "C15_spec_holds_repo", "C15_sequence_spec_holds",
+        "C15_F1_pinned_refuted", "C15_F4_pinned_refuted", "C15_F6_pinned_refuted", "C15_F7_pinned_refuted",
+        "C15_F2_refuted", "C15_F3_refuted", "C15_F5_refuted", "C15_F9_refuted", "C15_F8_observed_refuted",
+        "C15_nonvacuous", "C15_nonvacuous_trusted",
     ],
     "streams": [{
         "name": "proxy", "pkg": "./internal/handler/proxy", "test": "TestVerifC15",
@@ -48,7 +74,7 @@ P = {
             "percent-escapes of reserved / unreserved / non-ASCII bytes in either hex case, reserved literals, bytes net/url re-encodes, broken "
             "escapes, bare '?'; queries with repeated, encoded, empty, unparsable parameters; header names from pools AND fresh names "
             "(Content-Type, Traceparent, Via, X-<random token>), random casing, colliding with pipeline header names; values incl. the empty "
-            "string; X-Forwarded-* / Forwarded (also in two field lines) / Connection fields, CORS preflights; 14 methods; bodies 0 B .. 2 MiB "
+            "string; X-Forwarded-* / Forwarded (also in two field lines) / Connection fields, CORS preflights; 11 methods (incl. lower-case `get`, PROPFIND, M-SEARCH, TRACE); bodies 0 B .. 2 MiB "
             "with Content-Length or chunked framing; kept-alive connections re-used) from 5 loopback source addresses against 3 "
             "trusted_proxies configurations x rule (allow_encoded_slashes off/on/no_decode, forward_to host by address or name with every "
             "combination of scheme / strip_path_prefix (hit, miss, inside an escape) / add_path_prefix / strip_query_parameters biased to "
@@ -75,8 +101,10 @@ P = {
         "net/http server request parsing, httputil.ReverseProxy (hop-by-hop removal, stripping of client forwarding headers before Rewrite) "
         "and http.Transport (request line = URL.RequestURI, first User-Agent value only, Accept-Encoding: gzip added, scheme must be "
         "http/https) are MODELLED in C15/Model.v as observed, not verified",
-        "oracles in the case: whether the peer is in trusted_proxies (net.ParseCIDR/IP.Equal evaluated by the driver), and what url.Parse "
-        "makes of a trusted X-Forwarded-Uri (EscapedPath, Query().Encode()); the evaluator checks the latter is a valid well-formed path",
+        "oracles in the case: whether the peer is in trusted_proxies (net.ParseCIDR/IP.Equal evaluated by the driver), and what extractURL "
+        "reads from a trusted X-Forwarded-Uri (EscapedPath, RawQuery as sent; for a value url.Parse rejects: the text before / after the "
+        "first '?'); a path that is not a valid well-formed encoded path is finding C15-F9 (guard_F9), excluded from C15_spec_holds by its "
+        "hypothesis oracle_ok",
         "the rule executor (rule lookup) is replaced by a stub that runs one real rule; the pipeline is a stub authenticator calling the real "
         "AddHeaderForUpstream / AddCookieForUpstream / Body()",
     ],
@@ -85,28 +113,43 @@ P = {
                   "the repairs that are in /repo, ALL requests (any bytes in path, query, header names/values, body; TLS or not), ALL pipeline "
                   "outputs and ALL rules / rewrite configurations on which none of the open findings shows (guards: trusted X-Forwarded-Method "
                   "differs; `on` with a path net/url would re-spell; add_path_prefix not a valid encoded path; tracing on and a pipeline trace "
-                  "header), what the model forwards satisfies spec_ok — a predicate on the OBSERVATION written from the statement only: "
+                  "header; a trusted X-Forwarded-Uri that is not a valid encoded path (C15-F9, hypothesis oracle_ok)), what the model forwards satisfies spec_ok — a predicate on the OBSERVATION written from the statement only: "
                   "scheme, Host, wire path = add ++ (raw path minus strip prefix) byte for byte, kept query settings byte for byte in order, "
                   "method, body, and per header name: pipeline values (empty ones included) replace client values in any casing, "
                   "X-Forwarded-Method/-Uri/-Path never pass, X-Forwarded-For or Forwarded is the whole received chain extended by the peer, "
                   "client fields nobody touches arrive as sent. Separately: no double encoding for every setting/configuration (also inside the "
                   "guards), removed query parameters key by key for EVERY query, ParseQuery/Encode round trip, field names in any casing, "
                   "every upstream field name by name. Four findings repaired by fix: commits (C15-F1 41fd1db, -F4 35453b2, -F6 5270ed2, -F7 "
-                  "f228b67; pinned behaviour kept as refutation theorems), four open findings (F2, F3, F5, F8) proved/recorded with guards. The "
-                  "model is tied to the code by ~3150 (quick) / 76000 (thorough) generated cases per run through the real proxy service, "
-                  "Backend.CreateURL and the assembled application; the evaluator checks spec_ok on the implementation's observation and "
-                  "compares a projection (fields somebody sent, status class) for correspondence.",
+                  "f228b67; the behaviour before each commit kept as _pinned_refuted theorems), five open findings (F2, F3, F5, F9 proved with a "
+                  "witness in the model, F8 recorded from an observation of the assembled application) with guards. C15_spec_holds_repo is the "
+                  "statement read for /repo as it is (guards F2, F3, F5, F8 false and oracle_ok); C15_sequence_spec_holds the same for every "
+                  "request of every sequence through one rule. Measured share of cases inside a guard (quick run, proxy + e2e, about 1660 "
+                  "cases): F3 ~220, F2 ~50, F5 ~45, F8 ~40, F9 ~7; about half of the `allow_encoded_slashes: on` cases fall under guard_F3 "
+                  "(any escape other than %2F that is not the upper-case escape of a byte net/url escapes anyway) — for those inputs only "
+                  "C15_decoded_path speaks. The model is tied to the code by ~3175 (quick) / 76000 (thorough) generated cases per run in three "
+                  "streams (proxy service in-package, Backend.CreateURL, the assembled application), 45 % of them in sessions of 2-5 requests "
+                  "through one rule instance; the evaluator checks spec_ok on the implementation's observation and compares a projection "
+                  "(fields somebody sent, status class) for correspondence.",
     "level_note": "Trusted: Coq kernel/vm_compute; the harness (generators, stub executor/authenticator, raw TCP/TLS client and upstreams, Gallina "
                   "rendering, sha256 projection of bodies > 512 B); net/http server parsing, ReverseProxy and Transport behaviour is modelled as "
                   "observed (not verified); Base/GoUrl mirrors net/url (checked by C08's gourl stream and end to end here). DEFINITIONAL in the "
                   "model, hence assured by correspondence and by spec_ok on observations only: the body is passed through, the method is the "
                   "view's, scheme/Host/request line are assembled as Rewrite.v says. The request view (trusted X-Forwarded-Proto/-Uri/-Host; "
-                  "re-encoding of invalid bytes, C08-F4) is taken as 'the original' request; its url.Parse is an oracle. The quantifier is "
+                  "re-encoding of invalid bytes, C08-F4) is taken as 'the original' request for scheme, host, path and query; its reading of "
+                  "X-Forwarded-Uri is an oracle. For the METHOD the received request line is taken as the original (unlike scheme/host/path/"
+                  "query); under the other reading C15-F2 is no finding except for the body of the received request being sent with the "
+                  "forwarded method (the code's behaviour is deliberate). The quantifier is "
                   "restricted to origin-form targets (the model answers 'not forwarded' otherwise). Not generated, not modelled: CONNECT, "
                   "Upgrade/Te/Expect/trailers, absolute-form and `*` targets, pipeline headers named like framing/hop-by-hop fields, cookie "
                   "values needing sanitising, pipeline Host values that are not plain host names, HTTP/2. The OpenTelemetry transport "
-                  "wrapper is not modelled (trace headers are projected out when tracing is on; C15-F8 is an observed finding). The "
-                  "in-package stream is sequential; cross-request leakage is looked for only by the e2e stream's parallel batches.",
+                  "wrapper is not modelled (trace headers are projected out when tracing is on; C15-F8 is an observed finding). State "
+                  "kept on a rule / Backend / URLRewriter instance between consecutive requests is looked for by the sessions of all three "
+                  "streams; leakage between CONCURRENT requests only by the e2e stream's parallel batches (the in-package stream sends one "
+                  "request at a time). Looseness of the property predicate (the exact behaviour is still in the correspondence comparison): "
+                  "the Forwarded clause accepts any element containing for=<peer> as a substring (for=127.0.0.21 passes for peer 127.0.0.2); "
+                  "the Cookie clause only requires the pipeline's cookies to occur in the one Cookie value; 'forwarded to forward_to.host' is "
+                  "observed as which of the two upstreams (plain / TLS) received the request plus its Host line, the dialled address is not "
+                  "part of the outcome. C15_F8_observed_refuted says nothing about model or code (spec_ok rejects one recorded observation).",
     "assumptions": [
         "the upstream speaks HTTP/1.1 (ALPN offers only http/1.1 on the TLS upstream and on heimdall's TLS listener)",
         "header values are sent without leading/trailing blanks; names are RFC 7230 tokens",
